@@ -9,6 +9,7 @@ import (
 	"sort"
 	"strings"
 
+	"github.com/unixpickle/model3d/model2d"
 	"github.com/unixpickle/model3d/model3d"
 )
 
@@ -83,6 +84,7 @@ type voxelRecord struct {
 	Sdf      []sdfObs      `json:"sdf"`
 	Contains []containsObs `json:"contains"`
 	Multi    []multiObs    `json:"multi"`
+	Skipped  int           `json:"skipped"` // rays not put to the collider (see skipRay)
 }
 
 var axisOther = [3][2]int{{1, 2}, {2, 0}, {0, 1}}
@@ -175,6 +177,12 @@ func observeRay(c model3d.Collider, tris []*model3d.Triangle, o, d [3]int, e int
 		}
 		obs.First = firstObs{true, t4, ax, sg}
 	}
+	if tris == nil {
+		// a collider that is not made of triangles (extruded outlines): there is no linear scan to
+		// compare with, the clause "scan" is vacuous for these records by construction
+		obs.Nlin, obs.Firstok = obs.N, true
+		return obs
+	}
 	// the literal linear scan over the individual triangles
 	firstLin := math.Inf(1)
 	for _, t := range tris {
@@ -188,21 +196,24 @@ func observeRay(c model3d.Collider, tris []*model3d.Triangle, o, d [3]int, e int
 }
 
 type voxCollider struct {
-	name  string
-	build func(m *model3d.Mesh, rng *rand.Rand) model3d.Collider
+	name   string
+	build  func(m *model3d.Mesh, rng *rand.Rand) model3d.Collider
+	noTris bool // not a collection of triangles: nothing to scan linearly (clause "scan" is vacuous)
+	// skipRay (may be nil): rays (origin in half units, integer direction) that are not put to this collider
+	skipRay func(o, d [3]int) bool
 }
 
 func voxColliders() []voxCollider {
 	return []voxCollider{
-		{"MeshToCollider", func(m *model3d.Mesh, _ *rand.Rand) model3d.Collider { return model3d.MeshToCollider(m) }},
+		{"MeshToCollider", func(m *model3d.Mesh, _ *rand.Rand) model3d.Collider { return model3d.MeshToCollider(m) }, false, nil},
 		{"BVHAreaDensity", func(m *model3d.Mesh, _ *rand.Rand) model3d.Collider {
 			return model3d.BVHToCollider(model3d.NewBVHAreaDensity(m.TriangleSlice()))
-		}},
+		}, false, nil},
 		{"GroupedTriangles", func(m *model3d.Mesh, _ *rand.Rand) model3d.Collider {
 			tris := m.TriangleSlice()
 			model3d.GroupTriangles(tris)
 			return model3d.GroupedTrianglesToCollider(tris)
-		}},
+		}, false, nil},
 		{"JoinedNested", func(m *model3d.Mesh, rng *rand.Rand) model3d.Collider {
 			tris := m.TriangleSlice()
 			rng.Shuffle(len(tris), func(i, j int) { tris[i], tris[j] = tris[j], tris[i] })
@@ -220,7 +231,7 @@ func voxColliders() []voxCollider {
 				return model3d.NewJoinedCollider([]model3d.Collider{nest(cs[:k], depth-1), nest(cs[k:], depth-1)})
 			}
 			return nest(leaves, 3)
-		}},
+		}, false, nil},
 	}
 }
 
@@ -231,15 +242,24 @@ func runVoxelWorld(id int, vox [][3]int, vc voxCollider, rng *rand.Rand, nrays, 
 		m := voxelMesh(vox)
 		tris := m.TriangleSlice()
 		coll := vc.build(m, rng)
+		if vc.noTris {
+			tris = nil
+		}
 		randPt := func() [3]int {
 			return [3]int{rng.Intn(2*ext[0]+5) - 2, rng.Intn(2*ext[1]+5) - 2, rng.Intn(2*ext[2]+5) - 2}
 		}
-		for i := 0; i < nrays; i++ {
+		for i, tries := 0, 0; i < nrays && tries < 8*nrays; tries++ {
 			var d [3]int
 			for d == [3]int{} {
 				d = [3]int{rng.Intn(5) - 2, rng.Intn(5) - 2, rng.Intn(5) - 2}
 			}
-			rec.Rays = append(rec.Rays, observeRay(coll, tris, randPt(), d, []int{0, 0, 1, 10, 30, -3}[rng.Intn(6)]))
+			o, e := randPt(), []int{0, 0, 1, 10, 30, -3}[rng.Intn(6)]
+			if vc.skipRay != nil && vc.skipRay(o, d) {
+				rec.Skipped++
+				continue
+			}
+			rec.Rays = append(rec.Rays, observeRay(coll, tris, o, d, e))
+			i++
 		}
 		for i := 0; i < nsph; i++ {
 			c := randPt()
@@ -249,6 +269,9 @@ func runVoxelWorld(id int, vox [][3]int, vc voxCollider, rng *rand.Rand, nrays, 
 				if t.SphereCollision(halfPt(c), float64(mrad)/2) {
 					o.Hitlin = true
 				}
+			}
+			if vc.noTris {
+				o.Hitlin = o.Hit // no triangles to scan: vacuous
 			}
 			rec.Spheres = append(rec.Spheres, o)
 			rec.Contains = append(rec.Contains, containsObs{c, model3d.ColliderContains(coll, halfPt(c), 0)})
@@ -309,50 +332,266 @@ func runVoxelWorld(id int, vox [][3]int, vc voxCollider, rng *rand.Rand, nrays, 
 	return rec
 }
 
-func runVoxelSDF(id int, vox [][3]int, rng *rand.Rand, n int, ext [3]int) voxelRecord {
-	rec := voxelRecord{Id: id, Site: "MeshToSDF", Variant: "voxel-world", Voxels: vox, Rays: []rayObs{}, Spheres: []sphObs{},
+// voxSDF is one way of obtaining a distance field for a voxel world.  Whatever the field offers beyond SDF
+// (PointSDF, NormalSDF, FaceSDF) is observed as well; what it does not offer is left out of the record (empty
+// np / axis 0), which VoxelJudge does not decide.
+type voxSDF struct {
+	name  string
+	build func(m *model3d.Mesh) model3d.SDF
+	// tol: the documented accuracy of the value where the true distance is about v (nil: exact up to rounding)
+	tol func(v float64) float64
+}
+
+// bisectTol: ColliderToSDF brackets the distance d between two powers of two (x < d <= 2x) and halves the bracket
+// `iterations` times, so the answer is within d * 2^-iterations of d; a distance below 2^-iterations cannot be
+// bracketed and is answered by a value in [2^-iterations, 2^-(iterations-1)].
+func bisectTol(iterations int) func(float64) float64 {
+	if iterations == 0 {
+		iterations = 32 // documented default
+	}
+	return func(v float64) float64 {
+		return v*math.Ldexp(1, -iterations) + math.Ldexp(1, 1-iterations) + 1e-12
+	}
+}
+
+func voxSDFs(rng *rand.Rand) []voxSDF {
+	iters := []int{0, 24, 16}[rng.Intn(3)]
+	return []voxSDF{
+		{"ColliderToSDF", func(m *model3d.Mesh) model3d.SDF {
+			return model3d.ColliderToSDF(model3d.MeshToCollider(m), iters)
+		}, bisectTol(iters)},
+	}
+}
+
+var meshToSDF = voxSDF{"MeshToSDF", func(m *model3d.Mesh) model3d.SDF { return model3d.MeshToSDF(m) }, nil}
+
+func runVoxelSDF(id int, vox [][3]int, vs voxSDF, rng *rand.Rand, n int, ext [3]int) voxelRecord {
+	rec := voxelRecord{Id: id, Site: vs.name, Variant: "voxel-world", Voxels: vox, Rays: []rayObs{}, Spheres: []sphObs{},
 		Sdf: []sdfObs{}, Contains: []containsObs{}, Multi: []multiObs{}}
 	rec.Panic = protect(func() {
 		m := voxelMesh(vox)
-		sdf := model3d.MeshToSDF(m)
+		sdf := vs.build(m)
+		psdf, _ := sdf.(model3d.PointSDF)
+		nsdf, _ := sdf.(model3d.NormalSDF)
+		fsdf, _ := sdf.(model3d.FaceSDF)
 		for i := 0; i < n; i++ {
 			p := [3]int{rng.Intn(2*ext[0]+5) - 2, rng.Intn(2*ext[1]+5) - 2, rng.Intn(2*ext[2]+5) - 2}
 			c := halfPt(p)
 			o := sdfObs{P: p, Np: []int{}}
 			d := sdf.SDF(c)
-			np, d1 := sdf.PointSDF(c)
-			nrm, d2 := sdf.NormalSDF(c)
-			face, np2, d3 := sdf.FaceSDF(c)
-			if d != d1 || d != d2 || d != d3 || np != np2 {
-				o.Bad++
-			}
 			o.Sgn = sign(d)
+			// the squared distance in half units is an integer: the value is exact (to the documented
+			// accuracy) iff 4 d^2 is within the corresponding distance of that integer
 			x := d * d * 4
-			if math.Abs(x-math.Round(x)) > 1e-9 {
+			tol := 1e-9
+			if vs.tol != nil {
+				t := vs.tol(math.Abs(d))
+				tol += 4 * t * (2*math.Abs(d) + t)
+			}
+			if math.Abs(x-math.Round(x)) > tol {
 				o.Bad++
 			}
 			o.D2 = int(math.Round(x))
-			for _, v := range np.Array() {
-				h := v * 2
-				if math.Abs(h-math.Round(h)) > 1e-9 {
+			var np, nrm model3d.Coord3D
+			if psdf != nil {
+				var d1 float64
+				np, d1 = psdf.PointSDF(c)
+				if d1 != d {
 					o.Bad++
 				}
-				o.Np = append(o.Np, int(math.Round(h)))
+				for _, v := range np.Array() {
+					h := v * 2
+					if math.Abs(h-math.Round(h)) > 1e-9 {
+						o.Bad++
+					}
+					o.Np = append(o.Np, int(math.Round(h)))
+				}
+				// the reported point is at the reported distance
+				if math.Abs(np.Dist(c)-math.Abs(d)) > 1e-9 {
+					o.Bad++
+				}
 			}
-			ax, sg, ok := axisNormal(nrm)
-			if !ok {
-				o.Bad++
+			if nsdf != nil {
+				var d2 float64
+				nrm, d2 = nsdf.NormalSDF(c)
+				if d2 != d {
+					o.Bad++
+				}
+				ax, sg, ok := axisNormal(nrm)
+				if !ok {
+					o.Bad++
+				}
+				o.Axis, o.Nsgn = ax, sg
 			}
-			o.Axis, o.Nsgn = ax, sg
-			// the reported face must contain the reported point and have the reported normal
-			if face == nil || math.Abs(face.Dist(np)) > 1e-9 || face.Normal().Dist(nrm) > 1e-9 {
-				o.Bad++
-			}
-			// the reported point is at the reported distance
-			if math.Abs(np.Dist(c)-math.Abs(d)) > 1e-9 {
-				o.Bad++
+			if fsdf != nil {
+				face, np2, d3 := fsdf.FaceSDF(c)
+				if d3 != d || np2 != np {
+					o.Bad++
+				}
+				// the reported face must contain the reported point and have the reported normal
+				if face == nil || math.Abs(face.Dist(np)) > 1e-9 || face.Normal().Dist(nrm) > 1e-9 {
+					o.Bad++
+				}
 			}
 			rec.Sdf = append(rec.Sdf, o)
+		}
+	})
+	return rec
+}
+
+// ---------------------------------------------------------------------------- extrusions
+//
+// A pixel set P (unit squares [x,x+1] x [y,y+1]) extruded from z0 to z1 IS the voxel world P x {z0..z1-1}.  The
+// library's extruded objects (ProfileCollider, ProfileSDF, ProfilePointSDF, ProfileSolid over the 2-D outline of
+// P) must therefore give the answers VoxelJudge demands of that voxel world.
+
+// pixelOutline is the boundary of a pixel set: one unit segment per boundary pixel side, directed so that
+// Segment.Normal points out of the set (the direction convention of Bitmap.Mesh, without its corner cutting).
+func pixelOutline(pix [][2]int) *model2d.Mesh {
+	set := map[[2]int]bool{}
+	for _, p := range pix {
+		set[p] = true
+	}
+	m := model2d.NewMesh()
+	for _, p := range pix {
+		x, y := float64(p[0]), float64(p[1])
+		p1, p2, p3, p4 := model2d.XY(x, y), model2d.XY(x+1, y), model2d.XY(x+1, y+1), model2d.XY(x, y+1)
+		if !set[[2]int{p[0] - 1, p[1]}] {
+			m.Add(&model2d.Segment{p1, p4})
+		}
+		if !set[[2]int{p[0] + 1, p[1]}] {
+			m.Add(&model2d.Segment{p3, p2})
+		}
+		if !set[[2]int{p[0], p[1] + 1}] {
+			m.Add(&model2d.Segment{p4, p3})
+		}
+		if !set[[2]int{p[0], p[1] - 1}] {
+			m.Add(&model2d.Segment{p2, p1})
+		}
+	}
+	return m
+}
+
+type extWorld struct {
+	pix    [][2]int
+	z0, z1 int
+}
+
+func (w *extWorld) voxels() [][3]int {
+	var out [][3]int
+	for z := w.z0; z < w.z1; z++ {
+		for _, p := range w.pix {
+			out = append(out, [3]int{p[0], p[1], z})
+		}
+	}
+	return out
+}
+
+func (w *extWorld) bitmap() *model2d.Bitmap {
+	mx, my := 0, 0
+	for _, p := range w.pix {
+		if p[0] >= mx {
+			mx = p[0] + 1
+		}
+		if p[1] >= my {
+			my = p[1] + 1
+		}
+	}
+	b := model2d.NewBitmap(mx, my)
+	for _, p := range w.pix {
+		b.Set(p[0], p[1], true)
+	}
+	return b
+}
+
+// extColliders: the extruded outline as a collider (no triangles: clause "scan" is vacuous for these)
+func extColliders(w *extWorld) []voxCollider {
+	z0, z1 := float64(w.z0), float64(w.z1)
+	// FINDING pending: profileCollider.RayCollisions decides whether a ray meets the top / bottom face by the parity
+	// of ALL 2-D collisions of the ray's xy-shadow beyond that point; when the shadow passes exactly through a vertex
+	// of the outline (both segments ending there report a hit) anywhere further along the ray - also far outside the
+	// z range, where the 3-D ray touches no feature of the surface - the parity is wrong: faces are missed (a ray
+	// through the solid with 0 hits) or reported where the profile is not (hits off the surface).  Reproduction in
+	// /tmp/derived_findings.md (D1).  Rays whose shadow passes through an outline vertex at a parameter >= 0 are not
+	// put to the profile colliders for now; the ones among them that meet the vertex inside the z range are not in
+	// general position anyway (they touch a vertical edge of the surface).
+	verts := map[[2]int]bool{}
+	for _, s := range pixelOutline(w.pix).SegmentSlice() {
+		for _, c := range s {
+			verts[[2]int{int(c.X), int(c.Y)}] = true
+		}
+	}
+	skip := func(o, d [3]int) bool {
+		if d[0] == 0 && d[1] == 0 {
+			return false
+		}
+		for v := range verts {
+			wx, wy := 2*v[0]-o[0], 2*v[1]-o[1]
+			if wx*d[1]-wy*d[0] == 0 && wx*d[0]+wy*d[1] >= 0 {
+				return true
+			}
+		}
+		return false
+	}
+	return []voxCollider{
+		{"ProfileCollider(MeshToCollider)", func(_ *model3d.Mesh, _ *rand.Rand) model3d.Collider {
+			return model3d.ProfileCollider(model2d.MeshToCollider(pixelOutline(w.pix)), z0, z1)
+		}, true, skip},
+		{"ProfileCollider(JoinedCollider)", func(_ *model3d.Mesh, rng *rand.Rand) model3d.Collider {
+			segs := pixelOutline(w.pix).SegmentSlice()
+			rng.Shuffle(len(segs), func(i, j int) { segs[i], segs[j] = segs[j], segs[i] })
+			var cs []model2d.Collider
+			for _, s := range segs {
+				cs = append(cs, s)
+			}
+			return model3d.ProfileCollider(model2d.NewJoinedCollider(cs), z0, z1)
+		}, true, skip},
+	}
+}
+
+// extSolids: the extruded 2-D solid, observed through Contains only
+func extSolids(w *extWorld) []struct {
+	name  string
+	build func() model3d.Solid
+} {
+	z0, z1 := float64(w.z0), float64(w.z1)
+	return []struct {
+		name  string
+		build func() model3d.Solid
+	}{
+		{"ProfileSolid(ColliderSolid)", func() model3d.Solid {
+			return model3d.ProfileSolid(model2d.NewColliderSolid(model2d.MeshToCollider(pixelOutline(w.pix))), z0, z1)
+		}},
+		{"ProfileSolid(BitmapToSolid)", func() model3d.Solid {
+			return model3d.ProfileSolid(model2d.BitmapToSolid(w.bitmap()), z0, z1)
+		}},
+	}
+}
+
+func extSDFs(w *extWorld, rng *rand.Rand) []voxSDF {
+	z0, z1 := float64(w.z0), float64(w.z1)
+	iters := []int{0, 24, 16}[rng.Intn(3)]
+	return []voxSDF{
+		{"ProfileSDF(MeshToSDF)", func(_ *model3d.Mesh) model3d.SDF {
+			return model3d.ProfileSDF(model2d.MeshToSDF(pixelOutline(w.pix)), z0, z1)
+		}, nil},
+		{"ProfilePointSDF(MeshToSDF)", func(_ *model3d.Mesh) model3d.SDF {
+			return model3d.ProfilePointSDF(model2d.MeshToSDF(pixelOutline(w.pix)), z0, z1)
+		}, nil},
+		{"ProfileSDF(model2d.ColliderToSDF)", func(_ *model3d.Mesh) model3d.SDF {
+			return model3d.ProfileSDF(model2d.ColliderToSDF(model2d.MeshToCollider(pixelOutline(w.pix)), iters), z0, z1)
+		}, bisectTol(iters)},
+	}
+}
+
+func runExtSolid(id int, vox [][3]int, name string, build func() model3d.Solid, rng *rand.Rand, n int, ext [3]int) voxelRecord {
+	rec := voxelRecord{Id: id, Site: name, Variant: "voxel-world", Voxels: vox, Rays: []rayObs{}, Spheres: []sphObs{},
+		Sdf: []sdfObs{}, Contains: []containsObs{}, Multi: []multiObs{}}
+	rec.Panic = protect(func() {
+		s := build()
+		for i := 0; i < n; i++ {
+			p := [3]int{rng.Intn(2*ext[0]+5) - 2, rng.Intn(2*ext[1]+5) - 2, rng.Intn(2*ext[2]+5) - 2}
+			rec.Contains = append(rec.Contains, containsObs{p, s.Contains(halfPt(p))})
 		}
 	})
 	return rec
@@ -375,19 +614,32 @@ func subsetVoxels(nx, ny, nz int, bits uint64) [][3]int {
 }
 
 func init() {
-	// c07-voxel out= stats= plan=  items all:NX,NY,NZ | rand:NX,NY,NZ:COUNT ; rays=N spheres=N sdf=N kinds=collider,sdf
+	// c07-voxel out= stats= plan=  items all:NX,NY,NZ | rand:NX,NY,NZ:COUNT | extall:NX,NY,NZ | ext:NX,NY,NZ:COUNT ;
+	// rays=N spheres=N sdf=N kinds=collider,sdf derived=0|1
+	// all / rand: voxel worlds as mesh colliders and mesh distance fields (derived=1: also ColliderToSDF).
+	// extall / ext: extrusions (a pixel set of the NX x NY grid times a z range inside 0..NZ) as the library's
+	// extruded objects: ProfileCollider, ProfileSolid, ProfileSDF, ProfilePointSDF over the 2-D outline.
 	register("c07-voxel", func(a args) {
 		out := newNDWriter(a.str("out", "records.ndjson"))
 		defer out.close()
 		rng := rand.New(rand.NewSource(int64(a.int("seed", 1))))
+		// the derived variants draw from their own stream, so that the records of the mesh variants do not
+		// depend on whether the derived ones are requested
+		rng2 := rand.New(rand.NewSource(int64(a.int("seed", 1))*7919 + 77))
 		stats := map[string]int{}
 		id := 0
 		kinds := a.str("kinds", "collider,sdf")
+		derived := a.int("derived", 0) != 0
 		colliders := voxColliders()
-		emit := func(vox [][3]int, ext [3]int) {
-			if len(vox) == 0 {
-				return
-			}
+		put := func(rec voxelRecord) {
+			stats["records"]++
+			stats["nonempty"]++
+			stats["site:"+rec.Site]++
+			stats["rays"] += len(rec.Rays)
+			stats["rays-skipped"] += rec.Skipped
+			out.write(rec)
+		}
+		sortVox := func(vox [][3]int) {
 			sort.Slice(vox, func(i, j int) bool {
 				for k := 2; k >= 0; k-- {
 					if vox[i][k] != vox[j][k] {
@@ -396,25 +648,61 @@ func init() {
 				}
 				return false
 			})
+		}
+		emit := func(vox [][3]int, ext [3]int) {
+			if len(vox) == 0 {
+				return
+			}
+			sortVox(vox)
 			if strings.Contains(kinds, "collider") {
 				for _, vc := range colliders {
 					id++
-					rec := runVoxelWorld(id, vox, vc, rng, a.int("rays", 40), a.int("spheres", 20), ext)
-					stats["records"]++
-					stats["nonempty"]++
-					stats["site:"+rec.Site]++
-					stats["rays"] += len(rec.Rays)
-					out.write(rec)
+					put(runVoxelWorld(id, vox, vc, rng, a.int("rays", 40), a.int("spheres", 20), ext))
 				}
 			}
 			if strings.Contains(kinds, "sdf") {
 				id++
-				rec := runVoxelSDF(id, vox, rng, a.int("sdf", 40), ext)
-				stats["records"]++
-				stats["nonempty"]++
-				stats["site:"+rec.Site]++
-				out.write(rec)
+				put(runVoxelSDF(id, vox, meshToSDF, rng, a.int("sdf", 40), ext))
+				if derived {
+					for _, vs := range voxSDFs(rng2) {
+						id++
+						put(runVoxelSDF(id, vox, vs, rng2, a.int("sdf", 40), ext))
+					}
+				}
 			}
+		}
+		emitExt := func(w *extWorld, ext [3]int) {
+			if len(w.pix) == 0 || w.z0 >= w.z1 {
+				return
+			}
+			vox := w.voxels()
+			sortVox(vox)
+			stats["extrusions"]++
+			if strings.Contains(kinds, "collider") {
+				for _, vc := range extColliders(w) {
+					id++
+					put(runVoxelWorld(id, vox, vc, rng2, a.int("rays", 40), a.int("spheres", 20), ext))
+				}
+				for _, es := range extSolids(w) {
+					id++
+					put(runExtSolid(id, vox, es.name, es.build, rng2, 2*a.int("spheres", 20), ext))
+				}
+			}
+			if strings.Contains(kinds, "sdf") {
+				for _, vs := range extSDFs(w, rng2) {
+					id++
+					put(runVoxelSDF(id, vox, vs, rng2, a.int("sdf", 40), ext))
+				}
+			}
+		}
+		subsetPixels := func(nx, ny int, bits uint64) [][2]int {
+			var pix [][2]int
+			for j := 0; j < nx*ny; j++ {
+				if bits&(1<<uint(j)) != 0 {
+					pix = append(pix, [2]int{j % nx, j / nx})
+				}
+			}
+			return pix
 		}
 		for _, item := range strings.Split(a.str("plan", ""), ";") {
 			if item == "" {
@@ -440,6 +728,31 @@ func init() {
 					}
 					emit(subsetVoxels(nx, ny, nz, bits), ext)
 				}
+			case "extall": // every non-empty pixel set, every z range
+				for bits := uint64(1); bits < 1<<uint(nx*ny); bits++ {
+					for z0 := 0; z0 < nz; z0++ {
+						for z1 := z0 + 1; z1 <= nz; z1++ {
+							emitExt(&extWorld{subsetPixels(nx, ny, bits), z0, z1}, ext)
+						}
+					}
+				}
+			case "ext":
+				for i := 0; i < atoi(f[2]); i++ {
+					dens := 0.2 + 0.6*rng2.Float64()
+					var bits uint64
+					for bits == 0 {
+						for j := 0; j < nx*ny; j++ {
+							if rng2.Float64() < dens {
+								bits |= 1 << uint(j)
+							}
+						}
+					}
+					z0 := rng2.Intn(nz)
+					z1 := z0 + 1 + rng2.Intn(nz-z0)
+					emitExt(&extWorld{subsetPixels(nx, ny, bits), z0, z1}, ext)
+				}
+			default:
+				fatal("c07-voxel: unknown plan item %q", item)
 			}
 		}
 		writeJSONFile(a.str("stats", "stats.json"), stats)
